@@ -221,6 +221,8 @@ class Executor:
             ev["lines"] = intr.count
             ev["fired"] = bool(intr.fired)
             ev["where"] = intr.where
+        if op == "dump":
+            ev["writer_failed"] = bool(getattr(self, "_writer_failed", False))
         return ev
 
     def do_load(self, st, ev):
@@ -350,6 +352,38 @@ class Executor:
         text = self.bb.dumps(self._get(st["obj"]))
         with self.quiet():
             r = ["text", D.normalise_message(text, self.root)]
+            return {"sha": D.sha(r), "text": r[1][:300]}
+
+    def op_dump(self, st):
+        """blackbird.dump(program, writer): the writer is the one output stream the package
+        has.  The simulated writer accepts everything ('ok'), or fails with ENOSPC / EIO at
+        its n-th write call ('fail') - a full disk or a closed pipe under the caller."""
+        import errno as _errno
+        ex = self
+        mode = st.get("writer", "ok")
+
+        class Writer:
+            def __init__(self_):
+                self_.parts = []
+                self_.calls = 0
+
+            def write(self_, data):
+                self_.calls += 1
+                if mode != "ok" and self_.calls >= st.get("nth", 1):
+                    code = getattr(_errno, mode, _errno.EIO)
+                    ex._writer_failed = True
+                    raise OSError(code, os.strerror(code))
+                self_.parts.append(data)
+                return len(data)
+
+            def flush(self_):
+                pass
+
+        w = Writer()
+        self._writer_failed = False
+        self.bb.dump(self._get(st["obj"]), w)
+        with self.quiet():
+            r = ["text", D.normalise_message("".join(w.parts), self.root)]
             return {"sha": D.sha(r), "text": r[1][:300]}
 
     def op_call(self, st):
